@@ -67,6 +67,7 @@ def Divert.variantName : Divert → List String
   | .ret _ => ["Return"]
   | .interrupt _ => ["Interrupt"]
   | .exit _ => ["Exit"]
+  | .abort _ => ["Abort"]
 
 /-- the `set_internal_disposition` calls of one of the six enable/disable functions of `trap.rs`,
     applied in order -/
